@@ -116,6 +116,8 @@ class Hold:
                         and not e.ctor.startswith(('asm.H', 'asm.Jump', 'asm.Label', 'asm.Yield', 'asm.Sleep', 'asm.Flag', 'asm.S')):
                     self.clobber({src(e.args[0])}, f'{e.ctor}({src(e.args[0])}, ..)')
                     self.last_written = src(e.args[0])
+            elif e.kind == 'assign' and isinstance(e.value, (ast.YieldFrom, ast.Await)):
+                continue      # the binding was recorded by the `sub` event of the same statement
             elif e.kind == 'assign' and isinstance(e.value, ast.AST):
                 # aliasing: x = asm.State(self.r1)
                 m = re.fullmatch(r'asm\.State\((self\.r\d|r_out|r_use)\)', src(e.value)) if not isinstance(e.value, ast.AugAssign) else None
